@@ -3,6 +3,8 @@ import PegVerif.Exec.Driver
 import PegVerif.Exec.Run
 import PegVerif.Exec.SetDriver
 import PegVerif.Exec.CliDriver
+import PegVerif.Exec.DiagDriver
+import PegVerif.Exec.FrontDriver
 def main (args : List String) : IO UInt32 := do
   match args with
   | ["err"] => PegVerif.errMain
@@ -10,6 +12,8 @@ def main (args : List String) : IO UInt32 := do
   | ["run"] => PegVerif.runMain
   | ["set"] => PegVerif.setMain
   | ["cli"] => PegVerif.cliMain
+  | ["diag"] => PegVerif.diagMain
+  | ["front"] => PegVerif.frontMain
   | _ =>
     IO.eprintln s!"pegmodel: unknown command {args}"
     return 2
